@@ -89,7 +89,7 @@ func (r *sseResponder) setSSEHeaders(w http.ResponseWriter, session Session) {
 
 // marshalResponse serializes the response to JSON
 func (r *sseResponder) marshalResponse(resp interface{}) ([]byte, error) {
-	respBytes, err := json.Marshal(resp)
+	respBytes, err := marshalJSONRPCMessage(resp)
 	if err != nil {
 		return nil, fmt.Errorf("%w: %v", ErrResponseSerialization, err)
 	}
